@@ -16,10 +16,10 @@ func init() {
 	Register(&Prop{
 		Meta: core.Meta{
 			ID: "C33", Title: "IS-IS survives any sequence of interface state changes", Level: "other",
-			Technique:  "typestate/pairing rules on the start/stop pair of the interface object (typed AST + go/cfg): what stop consumes start re-creates, what start sets stop clears, what start creates conditionally stop uses conditionally; lock rules of C25 over the IS-IS and device packages plus a wait-under-lock rule",
-			DesignRef:  "DESIGN.md §4 C33",
-			Decided:    "(1) every channel that the stop path closes and every ticker that the stopped routines stop is re-created by the start path before it starts the routines; (2) the running flag that makes start refuse to run twice is cleared by stop on every path; (3) a resource that start creates only for active interfaces is used by stop only behind a test that it exists; (3b) the two fields of the interface object that depend on the link history (the ethernet handle: nil while the link is down and on passive interfaces; the device status: nil until the first device update) are dereferenced only behind a nil test, inside the routines that live between start and stop, behind a test at every call site, or at a reviewed exemption — the periodic LSDB work runs for every interface whatever its link state; (4) over protocols/isis/server and protocols/device: no lock leaked on a return path, no lock-order cycle, no re-acquisition of a held lock on the same object, no unbuffered send under a lock the receiver needs, and no WaitGroup.Wait under a lock that a goroutine counted by that WaitGroup takes.",
-			NotDecided: "that hellos are in fact sent and adjacencies form again (behaviour of the routines once restarted); link event sequences are not enumerated — the rules hold for every sequence because they are per-transition invariants of the start/stop pair.",
+			Technique:   "typestate/pairing rules on the start/stop pair of the interface object (typed AST + go/cfg): what stop consumes start re-creates, what start sets stop clears, what start creates conditionally stop uses conditionally; lock rules of C25 over the IS-IS and device packages plus a wait-under-lock rule",
+			DesignRef:   "DESIGN.md §4 C33",
+			Decided:     "(1) every channel that the stop path closes and every ticker that the stopped routines stop is re-created by the start path before it starts the routines; (2) the running flag that makes start refuse to run twice is cleared by stop on every path; (3) a resource that start creates only for active interfaces is used by stop only behind a test that it exists; (3b) the two fields of the interface object that depend on the link history (the ethernet handle: nil while the link is down and on passive interfaces; the device status: nil until the first device update) are dereferenced only behind a nil test, inside the routines that live between start and stop, behind a test at every call site, or at a reviewed exemption — the periodic LSDB work runs for every interface whatever its link state; (4) over protocols/isis/server and protocols/device: no lock leaked on a return path, no lock-order cycle, no re-acquisition of a held lock on the same object, no unbuffered send under a lock the receiver needs, and no WaitGroup.Wait under a lock that a goroutine counted by that WaitGroup takes.",
+			NotDecided:  "that hellos are in fact sent and adjacencies form again (behaviour of the routines once restarted); link event sequences are not enumerated — the rules hold for every sequence because they are per-transition invariants of the start/stop pair.",
 			TrustedBase: stdTrusted,
 		},
 		Run: runC33,
